@@ -172,6 +172,42 @@ class StepClock:
         return False
 
 
+class Aborted(BaseException):
+    """What an interrupted request looks like from the inside: an exception that does not come from the data (Ctrl-C, a
+    timeout raised by a signal handler, MemoryError) arriving at an arbitrary line."""
+
+
+class AbortAt(StepClock):
+    """Source-free failpoint: raises Aborted at the k-th interpreter line executed inside pykdebugparser/*.  `fired` tells
+    whether the line was reached."""
+
+    def __init__(self, k):
+        super().__init__(budget=k - 1)
+        self.fired = False
+
+    def __enter__(self):
+        mon = sys.monitoring
+        try:
+            mon.use_tool_id(self.TOOL, 'verif-abort')
+        except ValueError:
+            mon.free_tool_id(self.TOOL)
+            mon.use_tool_id(self.TOOL, 'verif-abort')
+
+        def on_line(code, line):
+            if '/pykdebugparser/' not in code.co_filename:
+                return mon.DISABLE
+            self.steps += 1
+            if self.steps > self.budget and not self.fired:
+                self.fired = True
+                raise Aborted(f'aborted at line {self.steps} inside pykdebugparser ({code.co_name}:{line})')
+            return None
+        mon.register_callback(self.TOOL, mon.events.LINE, on_line)
+        mon.set_events(self.TOOL, mon.events.LINE)
+        mon.restart_events()
+        self.active = True
+        return self
+
+
 class HandlerCoverage:
     """sys.monitoring PY_START on code objects of pykdebugparser/trace_handlers/*: which decoder functions
     were really entered."""
